@@ -369,3 +369,145 @@ Proof.
     destruct (get_call s c); unfold stream_iter, sync_return_exec, sync_return_idle, finish_sync, maybe_dequeue; cc_go0.
   - cbv zeta. destruct (at_gate s (get_call s c)); [exact (proj2 H)|]. destruct H as [_ B]. destruct (get_call s c); unfold ret; cc_go0.
 Qed.
+
+(* ---- the monitor's Synchronize calls were started by Synchronize events -------------------------------------------------------------------------------- *)
+Definition MPs (pfx : list (event * list (nat * wref))) (m : mon) : Prop :=
+  forall c w, In (c, w) (m_syncs m) -> exists a t h, In (EStartSync c a t, h) pfx /\ y_worker a = w.
+
+Lemma c02_obs_syncs_incl : forall post m err x y, In y (m_syncs (fst (c02_obs post (m, err) x))) -> In y (m_syncs m).
+Proof.
+  intros post m err x y. unfold c02_obs. destruct x; try (intro H; exact H).
+  - destruct (get_stream m c) as [sm|]; [|intro H; exact H]. destruct (sm_done sm); intro H; exact H.
+  - destruct (get_stream m c); cbn [fst m_syncs set]; [intro H; exact H|]. intro H. apply filter_In in H. tauto.
+  - destruct (find _ (m_syncs m)) as [[c' w]|]; cbn [fst m_syncs set]; intro H; apply filter_In in H; tauto.
+Qed.
+Lemma c02_fold_syncs_incl : forall post o m err y, In y (m_syncs (fst (fold_left (c02_obs post) o (m, err)))) -> In y (m_syncs m).
+Proof.
+  intros post o. induction o as [|x o IH]; intros m err y H; cbn [fold_left] in H; [exact H|].
+  destruct (c02_obs post (m, err) x) as [m1 e1] eqn:E. apply IH in H. pose proof (c02_obs_syncs_incl post m err x y) as H1. rewrite E in H1. exact (H1 H).
+Qed.
+Lemma retry_fold_syncs : forall cfg post e o m0 m3, m_syncs (fst (retry_fold cfg post e o m0 m3)) = m_syncs m3.
+Proof.
+  intros cfg post e o m0 m3. unfold retry_fold. cbv zeta.
+  match goal with |- m_syncs (fst (fold_left ?g o ?a)) = _ => apply (fold_left_pres (fun acc => m_syncs (fst acc) = m_syncs m3) g o) end; [|reflexivity].
+  intros [m err] x H. cbn [fst] in *. destruct x; try exact H. destruct d; try exact H.
+  destruct (find _ _) as [[c' w]|]; [|exact H]. destruct (find_dworker _ _ _) as [k|]; [|exact H]. destruct (dw_task k); exact H.
+Qed.
+Lemma pm2_syncs : forall e o m, m_syncs (pm2 e o m) = m_syncs (mon_event e m).
+Proof.
+  intros e o m. unfold pm2, pm1. cbv zeta. cbn [m_syncs set]. destruct e; try reflexivity.
+  destruct (existsb _ o); [|reflexivity]. destruct (x_sel a) as [[[? ?] ?] ?]. reflexivity.
+Qed.
+Lemma mon_event_syncs : forall e m y, In y (m_syncs (mon_event e m)) -> In y (m_syncs m) \/ exists c a t, e = EStartSync c a t /\ y = (c, y_worker a).
+Proof.
+  intros e m y. destruct e; cbn; try (intro H; left; exact H).
+  - destruct (x_sel a) as [[[? ?] ?] ?]. intro H; left; exact H.
+  - destruct (y_state a); cbn; (intros [<-|H]; [right; eauto|left; exact H]).
+Qed.
+Lemma pm_final_syncs_incl : forall cfg pre d e o m y, In y (m_syncs (pm_final cfg pre d e o m)) -> In y (m_syncs (mon_event e m)).
+Proof.
+  intros cfg pre d e o m y H. unfold pm_final in H. rewrite retry_fold_syncs in H. rewrite pm_clear_eq in H. cbn [m_syncs set] in H.
+  unfold pm3 in H. apply c02_fold_syncs_incl in H. rewrite pm2_syncs in H. exact H.
+Qed.
+Lemma MPs_step : forall pfx e h m cfg pre d o, MPs pfx m -> MPs (pfx ++ [(e, h)]) (pm_final cfg pre d e o m).
+Proof.
+  intros pfx e h m cfg pre d o H c w Hin. apply pm_final_syncs_incl in Hin. destruct (mon_event_syncs e m _ Hin) as [Hm|[c' [a [t [-> E]]]]].
+  - destruct (H c w Hm) as [a [t [h' [A B]]]]. exists a, t, h'. split; [apply in_or_app; left; exact A|exact B].
+  - inversion E; subst. exists a, t, h. split; [apply in_or_app; right; left; reflexivity|reflexivity].
+Qed.
+
+Lemma get_stream_none_existsb : forall m c, get_stream m c = None -> existsb (fun s => Nat.eqb (sm_call s) c) (m_streams m) = false.
+Proof.
+  intros m c H. unfold get_stream in H. apply existsb_none. intros x Hx. destruct (Nat.eqb (sm_call x) c) eqn:E; [|reflexivity].
+  exfalso. pose proof (find_none _ _ H x Hx) as Hn. cbv beta in Hn. congruence.
+Qed.
+
+(* an EEnter of a call parked in PKillRecheck is an operator's kill for the monitor too *)
+Lemma kill_enter_is_kill : forall cfg t0 pfx m c n code,
+  fresh_calls [] pfx -> InvS cfg t0 pfx m -> MPs pfx m ->
+  get_call (fst (run (init cfg t0) pfx)) c = PKillRecheck n code ->
+  negb (existsb (fun s => Nat.eqb (sm_call s) c) (m_streams m)) && negb (existsb (fun '(c', _) => Nat.eqb c c') (m_syncs m)) = true.
+Proof.
+  intros cfg t0 pfx m c n code Hf [HI _] HM Hp. set (s := fst (run (init cfg t0) pfx)) in *.
+  assert (Ep : aget Nat.eqb c (s_calls s) = Some (PKillRecheck n code)).
+  { unfold get_call in Hp. destruct (aget Nat.eqb c (s_calls s)) as [p|]; [rewrite Hp; reflexivity|discriminate]. }
+  pose proof (call_view cfg t0 pfx c Hf) as V. fold s in V. rewrite Ep in V. cbn [J] in V. destruct V as [Hk _].
+  specialize (HI c). rewrite Hk in HI. cbn [smi] in HI. rewrite (get_stream_none_existsb m c HI). cbn [negb andb].
+  apply negb_true_iff. apply existsb_none. intros [c' w] Hin. destruct (Nat.eqb c c') eqn:E; [|reflexivity]. apply Nat.eqb_eq in E. subst c'. exfalso.
+  destruct (HM c w Hin) as [a [t [h [A B]]]].
+  destruct (CLS_run cfg t0 pfx Hf c _ CKill Ep eq_refl) as [e' [h' [A' [S' [C' K']]]]].
+  pose proof (fresh_unique_start pfx [] _ _ _ _ Hf A A' eq_refl S' (eq_sym C')) as Ee. subst e'. discriminate K'.
+Qed.
+
+(* ---- e_cancel on one event ---------------------------------------------------------------------------------------------------------------------------------------- *)
+Lemma CCb_start : forall s h, G s -> CCb s None (s <| s_hints := h |> <| s_out := [] |>).
+Proof.
+  intros s h HG. pose proof (XS_X _ _ (G_XS _ HG)) as HX. pose proof (G_W _ HG) as [_ [HWo _]].
+  split; [split|split].
+  - intros o x0 Ho. exact (proj2 (HWo o x0 (aget_In Nat.eqb nat_eqb_eq _ _ _ Ho))).
+  - intros o x0 Ho Hn. assert (Ha : op_alive s o = true) by (unfold op_alive; rewrite Ho; reflexivity).
+    pose proof (XO1 _ _ HX o Ha (fun F => F)) as L. unfold tsk, get_op in L. rewrite Ho in L. unfold get_task in L. rewrite Hn in L. destruct L.
+  - intros t Ht. exact Ht.
+  - split; [cbn; lia|]. split.
+    + intros o x0 Ho _. change (get_op (s <| s_hints := h |> <| s_out := [] |>) o) with (get_op s o). unfold get_op. rewrite Ho. reflexivity.
+    + intros o x0 _ Ho Hr _ r Hr'. change (get_task (s <| s_hints := h |> <| s_out := [] |>) (o_task x0)) with (get_task s (o_task x0)) in Hr'. congruence.
+Qed.
+
+Lemma find_dop_ops : forall d d' o, d_ops d = d_ops d' -> find_dop d o = find_dop d' o.
+Proof. intros d d' o E. unfold find_dop. rewrite E. reflexivity. Qed.
+
+Lemma pc_cancel_ok : forall cfg t0 pfx e h m pre,
+  good cfg t0 (pfx ++ [(e, h)]) -> causes_ok (pfx ++ [(e, h)]) -> ~ panicked (snd (run (init cfg t0) (pfx ++ [(e, h)]))) ->
+  InvS cfg t0 pfx m -> MPs pfx m ->
+  let s := fst (run (init cfg t0) pfx) in pre_ok pre s ->
+  pc_cancel pre (observe (fst (step s (e, h)))) e m = ""%string.
+Proof.
+  intros cfg t0 pfx e h m pre Hg Hc Hnp HI HM s Hpre. set (s' := fst (step s (e, h))).
+  pose proof (good_prefix _ _ _ _ Hg) as [Hsel [Hfr _]].
+  assert (Hnp0 : ~ panicked (snd (run (init cfg t0) pfx))) by (intro Hp; apply Hnp; rewrite run_snoc_snd; apply panicked_app; left; exact Hp).
+  destruct (Cok_run pfx (init cfg t0) Hsel (Cok_init cfg t0)) as [Hp|HC]; [contradiction|]. fold s in HC.
+  assert (HG : G s) by (destruct HC as [A [B [_ [D _]]]]; split; [exact A|split; assumption]).
+  assert (Hev : ev_resp_ok e = true) by (apply (Hc (e, h)); apply in_or_app; right; left; reflexivity).
+  unfold pc_cancel. cbv zeta.
+  destruct (kill_event e (get_call s (ev_call e))) eqn:Hk.
+  { destruct e; cbn [kill_event ev_call] in Hk; try discriminate Hk; [reflexivity|].
+    destruct (get_call s c) as [| | | | | | | | | | |n code| | |] eqn:Ep; try discriminate Hk. rewrite (kill_enter_is_kill cfg t0 pfx m c n code Hfr HI HM Ep). reflexivity. }
+  match goal with |- (if ?b then _ else _) = _ => destruct b; [reflexivity|] end.
+  (* the event is no kill: what it completes with the scheduler's CANCELLED has lost its operations *)
+  set (sa := s <| s_hints := h |> <| s_out := [] |>).
+  assert (Hsa : GCC s sa) by (split; [eapply G_eq; [..|exact HG]; reflexivity|apply CCb_start; exact HG]).
+  pose proof (CCb_step_core s e sa Hev Hk Hsa) as H1.
+  assert (H2 : CCb s None (auto_returns (step_core e sa))) by (apply (fr_auto_returns (CCb s None)); try (intros; t_CC); try (intros; unfold ret; cc_go0); try exact H1).
+  assert (H3 : CCb s None s') by (unfold s', step; cbn [fst snd]; fold sa; eapply CCb_frame; [| | |exact H2]; reflexivity).
+  destruct H3 as [_ [_ [_ [HOT HCC]]]].
+  pose proof (proj1 (ML_run cfg t0 (pfx ++ [(e, h)]))) as Hnd. rewrite run_snoc_fst in Hnd. fold s s' in Hnd.
+  apply first_nonempty_all_empty. intros y Hy. apply in_map_iff in Hy. destruct Hy as [dop [<- Hd]].
+  unfold observe in Hd. cbn [d_ops] in Hd. apply in_map_iff in Hd. destruct Hd as [[o x] [<- Hox]].
+  pose proof (In_aget_NoDup Nat.eqb nat_eqb_eq _ _ _ Hnd Hox) as Ea.
+  assert (Hal : op_alive s' o = true) by (unfold op_alive; rewrite Ea; reflexivity).
+  assert (Eg : get_op s' o = x) by (unfold get_op; rewrite Ea; reflexivity).
+  cbn [do_resp do_name observe_op]. destruct (t_resp (get_task s' (o_task x))) as [r|] eqn:Er; [|reflexivity].
+  rewrite (find_dop_ops pre (observe s) o (proj1 Hpre)).
+  destruct (aget Nat.eqb o (s_ops s)) as [x0|] eqn:E0; [|rewrite (find_dop_observe_none s o E0); reflexivity].
+  rewrite (find_dop_observe s o x0 E0). cbn [do_resp do_waiters observe_op].
+  destruct (t_resp (get_task s (o_task x0))) eqn:Er0; [reflexivity|].
+  pose proof (HOT o x0 E0 Hal) as Et. rewrite Eg in Et.
+  pose proof (HCC o x0 ltac:(discriminate) E0 Er0 Hal r ltac:(rewrite <- Et; exact Er)) as Hok. unfold okc in Hok. rewrite Hok. reflexivity.
+Qed.
+
+Definition InvC (cfg : config) (t0 : Z) (pfx : list (event * list (nat * wref))) (m : mon) (pre : dump) : Prop :=
+  InvS cfg t0 pfx m /\ MPs pfx m /\ pre_ok pre (fst (run (init cfg t0) pfx)).
+
+Theorem monitor_cancel_on_model : forall cfg t0 evs,
+  selectors_in_range (init cfg t0) evs -> fresh_calls [] evs -> bg_scripts_ok evs -> causes_ok evs ->
+  panicked (snd (run (init cfg t0) evs)) \/ trace_sub [5%nat] cfg t0 (model_trace cfg t0 evs) = true.
+Proof.
+  intros cfg t0 evs Hsel Hfr Hbg Hc.
+  apply (trace_sub_generic2 cfg t0 [5%nat] causes_ok (InvC cfg t0) causes_ok_prefix) with (pfx := []) (m := mon0) (pre := empty_dump);
+    [|split; [exact Hsel|split; assumption]|exact Hc|intros [o [what [[] _]]]|].
+  - intros pfx [e h] m pre Hg Hq Hnp [HI [HM Hpre]]. cbv zeta. split.
+    + cbn [forallb]. rewrite andb_true_r. apply String.eqb_eq. unfold p_components. cbv zeta. cbn [nth fst]. apply pc_cancel_ok; assumption.
+    + split; [apply InvS_step; [exact (proj1 (proj2 Hg))|exact Hq|exact HI]|]. split; [apply MPs_step; exact HM|]. rewrite run_snoc_fst. split; reflexivity.
+  - split; [|split; [intros c w []|apply pre_ok_init]].
+    split; [intro c; cbn; reflexivity|]. intros t r Hr. unfold init, get_task in Hr. cbn in Hr. discriminate.
+Qed.
